@@ -7,7 +7,8 @@ Is(k) == l <= Len(Traces[tid]) /\ Ev.e = k
 Step == l' = l + 1 /\ UNCHANGED tid
 TInit == Init /\ tid \in 1..Len(Traces) /\ l = 1 /\ TLCSet(tid, 1)
 TRunStart == Is("run_start") /\ Step /\ RunStart /\ Ev.serving = TRUE
-TRunEnd == Is("run_end") /\ Step /\ RunEnd /\ Ev.serving = FALSE
+\* (the worker's run ends by returning: an exception out of Worker.run() -- whatever a consumer's failure said -- is not an end of it)
+TRunEnd == Is("run_end") /\ Step /\ RunEnd /\ Ev.serving = FALSE /\ ~Ev.raised
 TFail == Is("fail") /\ Step /\ ConsumerFails
 TConn == Is("conn") /\ Step /\ Connect(Ev.c)
 TRecv == Is("recv") /\ Step /\ Receive(Ev.c, Ev.cls, Ev.code)
